@@ -50,7 +50,8 @@ CHECKS = {
  "C07": dict(
     text="Bounded exhaustive enumeration: every Manifold model (all Lie groups d/f, vectors, scalars, std::vector<M> of sizes 0..3, every "
          "alternative of a std::variant, SubManifold with EVERY subset of fixed dimensions (8+8+16+32), AnyManifold over all of these) x full "
-         "products value x tangent and value x value from the branch-structured alphabets: rplus/rminus round trips, rminus(m,m)=0, dof "
+         "products value x tangent and value x value from the branch-structured alphabets: rplus/rminus round trips (steps that are small as a whole "
+         "also judged relative to |a|: a tiny step must not be dropped), rminus(m,m)=0, dof "
          "consistency, element-wise segment bookkeeping, independent scatter/gather reference for SubManifold, copy / cast identity and "
          "mutate-after-copy independence.",
     design="4/C07", technique="explicit-state enumeration over configuration families x finite input products against reference models"),
@@ -118,7 +119,9 @@ CHECKS = {
          "at vector-aligned and scalar-aligned placement, 11 types; after every call the region equals the same call on a value object "
          "(<= 4 ulp) and every scalar outside the call's documented write range is bitwise unchanged; in every reached state all const "
          "operations agree between value / Map / const Map, const views do not write, cross-storage copies are verbatim, cast<S>() is "
-         "coefficient-wise; plain sub-part assignments have a library-independent expectation; sources that are temporary / moved-from views "
+         "coefficient-wise; plain sub-part assignments have a library-independent expectation; every read-only sub-part accessor on a const "
+         "value, a Map and a const Map shows exactly its own sub-range of the coefficients; the object returned by a mutating operator is "
+         "the object itself (chained second operations, on views and on values); sources that are temporary / moved-from views "
          "are not written; the type-level clauses (const views offer no mutator) are judged at run time, read-only uses are compile probes.",
     design="4/C16", technique="explicit-state BFS over operation histories on the real buffer with a shadow value model"),
  "C17": dict(
